@@ -345,6 +345,74 @@ def rule_r7(prog, res):
     res.floor('R7', 'XML parses in value readers', n, 1)
 
 
+# ------------------------------------------------------------------- R8
+def rule_r8(prog, res):
+    res.rule('R8', 'every request document passes the entity-declaration '
+             'gate after it is parsed (libxml2 substitutes internal entities '
+             'in attribute values even with resolve_entities off)')
+    x = prog.cls('spyne.protocol.xml:XmlDocument')
+    gate = x.methods.get('_reject_entity_declarations')
+    if gate is None:
+        raise AnalysisError('XmlDocument._reject_entity_declarations',
+                            'not found')
+    raises = [r for r in walk_no_defs(gate.node) if isinstance(r, ast.Raise)]
+    txt = unparse(gate.node)
+    ok = bool(raises) and 'internalDTD' in txt and ('iterentities' in txt or
+                                                   'entities' in txt)
+    res.ob('R8', gate.where, 'the gate raises for a document whose internal '
+           'subset declares entities', 'ok' if ok else 'VIOLATED')
+    if not ok:
+        res.finding('R8', 'XmlDocument._reject_entity_declarations|gate',
+                    gate.where, 'the gate no longer refuses documents that '
+                    'declare entities')
+    # the only exemption is an explicit resolve_entities=True
+    from .. import guardspec
+    for r in raises:
+        atoms = guardspec.atoms_at(r, gate.node)
+        extra = [(t, p_) for t, p_ in atoms if 'internalDTD' not in t and
+                 'iterentities' not in t and 'resolve_entities' not in t and
+                 'dtd' not in t.lower()]
+        res.ob('R8', '%s:%d' % (gate.module.relpath, r.lineno),
+               'gate condition: %s' % [t for t, _ in atoms],
+               'VIOLATED' if extra else 'ok')
+        for t, p_ in extra[:1]:
+            res.finding('R8', 'XmlDocument._reject_entity_declarations|'
+                        'extra-condition', '%s:%d' % (gate.module.relpath,
+                                                      r.lineno),
+                        'the refusal additionally depends on "%s%s"' % (
+                            '' if p_ else 'not ', t))
+    n = 0
+    for cfq in XML_CLASSES:
+        c = prog.cls(cfq)
+        f = c.methods.get('create_in_document')
+        if f is None or f.cls is not c:
+            continue
+        n += 1
+        calls = [c_ for c_ in calls_in(f.node)
+                 if call_name(c_) == '_reject_entity_declarations']
+        uncond = []
+        for c_ in calls:
+            st = c_
+            while not isinstance(st, ast.stmt):
+                st = st._parent
+            if not guardspec.atoms_at(st, f.node):
+                uncond.append(c_)
+        ok = bool(uncond)
+        res.ob('R8', f.where, '%s.create_in_document %s the gate' % (
+            c.name, 'passes every parsed document through' if ok else
+            'does not (always) call'), 'ok' if ok else 'VIOLATED')
+        if not ok:
+            res.finding('R8', '%s.create_in_document|gate-skipped' % c.name,
+                        f.where, '%s.create_in_document does not hand every '
+                        'parsed document to _reject_entity_declarations: '
+                        'internal entities declared in a DOCTYPE are '
+                        'substituted in attribute values and reach user code, '
+                        'and entity reference nodes crash the readers' %
+                        c.name)
+    res.floor('R8', 'create_in_document implementations of the XML family',
+              n, 2)
+
+
 def run(prog, res, tier):
     res.rule('R1', 'request-path XML parses use the configured safe parser')
     res.rule('R2', 'parser defaults are safe, bound by name, never rebound')
@@ -768,6 +836,7 @@ def _tail(prog, res, tier):
     res.run_rule(rule_r4, prog, res)
     res.run_rule(rule_option_binding, prog, res)
     res.run_rule(rule_r7, prog, res)
+    res.run_rule(rule_r8, prog, res)
     # subclasses forward *args/**kwargs unchanged
     xmldoc = prog.cls('spyne.protocol.xml:XmlDocument')
     n_sub = 0
@@ -829,6 +898,17 @@ _S = 'spyne/protocol/soap/soap11.py'
 _M = 'spyne/protocol/soap/mime.py'
 
 MUTANTS = [
+    Mutant('soap-skips-entity-gate', 'R8', 'fire',
+           'spyne/protocol/soap/soap11.py',
+           in_func('Soap11.create_in_document',
+                   "self._reject_entity_declarations(ctx.in_document[0])",
+                   "pass"), 'gate-skipped'),
+    Mutant('entity-gate-only-for-soft-validation', 'R8', 'fire',
+           'spyne/protocol/xml.py',
+           in_func('XmlDocument._reject_entity_declarations',
+                   "        if self.parser_kwargs.get('resolve_entities'):",
+                   "        if self.parser_kwargs.get('resolve_entities') or "
+                   "self.validator is None:"), 'extra-condition'),
     Mutant('huge-tree-second-chance', 'R1', 'fire', 'spyne/protocol/xml.py',
            in_func('XmlDocument.create_in_document',
                    "            except ValueError:\n",
